@@ -208,6 +208,10 @@ func (k Keeper) ForceValidatorUnstake(ctx sdk.Ctx, validator types.Validator) sd
 	k.BeforeValidatorUnstaked(ctx, validator.GetAddress())
 	// delete the validator from staking set as they are unstaked
 	k.deleteValidatorFromStakingSet(ctx, validator)
+	// an unstaking validator also leaves the unstaking queue, or a stale entry would release a later unstaking early
+	if validator.IsUnstaking() {
+		k.deleteUnstakingValidator(ctx, validator)
+	}
 	// amount unstaked = stakedTokens (nothing left to burn if a slash already took all of them)
 	if validator.StakedTokens.IsPositive() {
 		err := k.burnStakedTokens(ctx, validator.StakedTokens)
